@@ -67,7 +67,8 @@ GetVecs(s) ==
   LET pres == {n \in Names : Present(s[1], s[2], s[3], n)}
   IN UNION {UNION {{Vec(s, "g", n, <<>>, ic, a, cc, 0, "", "", GetX(n, ic, a, cc)) : cc \in CapsFor(a)} : a \in FullAcc, ic \in ICs(n)}
             : n \in pres}
-     \cup UNION {{Vec(s, "g", n, <<>>, ic, a, "sz", 0, "", "", GetX(n, ic, a, "sz")) : a \in {"bool", "int64", "double"}, ic \in ICs(n)}
+     \cup UNION {{Vec(s, "g", n, <<>>, ic, a, "sz", 0, "", "", GetX(n, ic, a, "sz")) :
+                        a \in {"bool", "int64", "double", "fbool", "fint64", "fdouble"}, ic \in ICs(n)}
                  : n \in pres}
      \cup {Vec(s, "g", n, <<>>, "-", a, "4096", 0, "", "", "ENOENT") : n \in Names \ pres, a \in {"gen", "str", "bool"}}
      \cup {Vec(s, "g", n, <<>>, "-", a, cc, 0, "", "", "EACCES") : n \in Interior, a \in {"gen", "str"}, cc \in {"0", "4096"}}
